@@ -24,7 +24,7 @@ CLAIMS = {
  "C19": dict(cat="fault_enumeration", tech="TLA+ oracle (Kv.tla CrashAtomic/CrashProbe incl. peer_same) with TLC trace validation: histories executed by one release (current code or redb 3.0.0 from the local registry), every clean-close file and crash image opened by the other release",
    text="both directions over random histories (all table kinds and key/value types of the corpora, savepoints, compaction): every clean-close file and every crash image must be opened by the other release with exactly one commit point of the history, the same contents the writing release shows, a passing integrity check and a working subsequent write. One known finding (3.0.0 answers Ok(false) on files shorter than it ever creates).",
    note="4 KiB pages only (3.0.0 cannot choose); 3.0.0's own unrecoverable crash images skipped", ref="DESIGN.md 4/C19"),
- "C13": dict(cat="fault_enumeration", tech="TLA+ oracle (Kv.tla Compact + CrashAtomic) with TLC trace validation of compaction-heavy histories and crash enumeration of every backend operation issued during compaction",
+ "C13": dict(cat="fault_enumeration", tech="TLA+ spec Compact.tla (the relocation loop on page positions, all small forests and placements) checked by TLC; TLA+ oracle (Kv.tla Compact + CrashAtomic) with TLC trace validation of compaction-heavy histories and crash enumeration of every backend operation issued during compaction",
    text="contents unchanged, refusals as documented, file never larger, bounded syncs, and all crash points inside compaction recover to the unchanged contents.",
    note="pass bound is a function of the file size (8 * (pages + 8) syncs)", ref="DESIGN.md 4/C13"),
  "C15": dict(cat="exploration", tech="TLA+ spec KeyOrder.tla (separator rules transcribed, contract checked by TLC over small domains) + enumeration of real encodings of all built-in key types judged by TLC (KeyOrderTrace.tla)",
